@@ -156,7 +156,12 @@ func c16History(c *Ctx, r *Rng, t *TNode, length int, forced []string) {
 		// byte equality with the encoding of a freshly built column holding the same contents
 		if !unorderedMaps(t, false) {
 			want, err := freshEncoding(t, expected)
-			if err == nil && !bytes.Equal(want, data) && !strings.Contains(t.CH, "LowCardinality(Float") {
+			// dictionaries keyed by Go values whose equality is finer or coarser than the wire value are not canonical:
+			// floats (±0, F20) and time.Time (the same instant with another Location representation gets a second entry);
+			// the decoded contents were compared above, which is what the property demands
+			nonCanonicalLC := strings.Contains(t.CH, "LowCardinality(Float") || strings.Contains(t.CH, "LowCardinality(Date") ||
+				strings.Contains(t.CH, "LowCardinality(Nullable(Date") || strings.Contains(t.CH, "LowCardinality(Nullable(Float")
+			if err == nil && !bytes.Equal(want, data) && !nonCanonicalLC {
 				R.Violate(Violation{Kind: "oracle", Key: "reuse-encode-differs-from-fresh", What: what + ": bytes differ from those of a fresh column with the same contents: " + diffHex(hx(want), hx(data)), Case: cs()})
 				return false
 			}
@@ -168,7 +173,7 @@ func c16History(c *Ctx, r *Rng, t *TNode, length int, forced []string) {
 					if expected.NRows() > 0 {
 						m = append(append([]byte(nil), st...), cb...)
 					}
-					if !bytes.Equal(m, data) && !strings.Contains(t.CH, "LowCardinality(Float") {
+					if !bytes.Equal(m, data) && !nonCanonicalLC {
 						R.Violate(Violation{Kind: "correspondence", Key: "model-reuse-differs", What: what + ": model bytes of the logical contents != bytes produced: " + diffHex(hx(m), hx(data)), Case: cs(), Obligation: "C16_encode_reflects_contents"})
 						return false
 					}
